@@ -357,8 +357,17 @@ func runInProcess(src string) ([]byte, rec.Outcome) {
 		out = rec.Classify(ev.Run(src))
 	}()
 	var buf bytes.Buffer
-	if err := rt.WriteSVG(&buf); err != nil {
-		return nil, rec.Outcome{Class: "othererr", Msg: err.Error()}
+	var werr error
+	func() {
+		defer func() {
+			if r := recover(); r != nil {
+				out = rec.Outcome{Class: "gopanic", Msg: "writing the SVG: " + fmt.Sprint(r)}
+			}
+		}()
+		werr = rt.WriteSVG(&buf)
+	}()
+	if werr != nil {
+		return nil, rec.Outcome{Class: "othererr", Msg: werr.Error()}
 	}
 	return buf.Bytes(), out
 }
